@@ -119,6 +119,78 @@ def attribute_reads(name):
     return found
 
 
+BAD_VALUES = [[], 'no such \u00a7 value', -10 ** 9, 1.5]
+
+
+def attribute_writes(name):
+    """(session 2) overwriting a stored attribute by dot assignment: (a) a rejected value must raise and leave the stored
+    attributes exactly as they were; (b) an accepted overwrite must give the same attribute dictionary (same order) and the
+    same serialisation as the explicit dictionary updates e.attributes[k] = v in the same order"""
+    found = []
+    tn, c, st = lib.type_of(name)
+    usable = []
+    for a in (c['attrs'] if c else []):
+        if ':' in a['name'] or a['name'] == 'name' or a.get('fixed'):
+            continue
+        v = lib.sample_for(refmodel.attr_type(lib.MODEL, a))
+        if v is None:
+            continue
+        py = docs.py_attr(a['name'])
+        with lib.Capture():
+            try:
+                setattr(lib.make(name), py, v)
+            except Exception:
+                continue
+        usable.append((a['name'], py, v))
+        if len(usable) >= 3:
+            break
+    if not usable:
+        return found
+
+    def text(e):
+        try:
+            return e.to_string()
+        except Exception as ex:
+            return 'raises ' + type(ex).__name__
+
+    with lib.Capture():
+        # (a) rejected overwrite
+        h1, p1, v1 = usable[0]
+        for bad in BAD_VALUES:
+            try:
+                setattr(lib.make(name), p1, bad)
+                continue            # accepted on a fresh element: not a rejected value for this attribute
+            except Exception:
+                pass
+            e = lib.make(name)
+            for h, p, v in usable:
+                setattr(e, p, v)
+            before = (list(e.attributes.items()), text(e))
+            try:
+                setattr(e, p1, bad)
+                raised = False
+            except Exception:
+                raised = True
+            after = (list(e.attributes.items()), text(e))
+            if not raised:
+                found.append(('rejected-value-accepted-as-overwrite', 'attribute %s: %r is refused on a fresh element but accepted over %r' % (h1, bad, v1)))
+            elif after != before:
+                found.append(('failed-attribute-assignment-changed-element', 'attribute %s = %r raised, attributes %r -> %r' % (h1, bad, before[0], after[0])))
+            break
+        # (b) accepted overwrite against the explicit dictionary route
+        if len(usable) >= 2 and not found:
+            order = usable + [usable[0]]
+            e = lib.make(name)
+            x = lib.make(name)
+            for h, p, v in order:
+                setattr(e, p, v)
+                x.attributes[h] = v
+            if list(e.attributes.items()) != list(x.attributes.items()) or text(e) != text(x):
+                found.append(('shortcut-overwrite-differs-from-dictionary-update', 'after %s: shortcut %r / %s, dictionary %r / %s' % (
+                    [h for h, _, _ in order], list(e.attributes.items()), text(e)[:80], list(x.attributes.items()), text(x)[:80])))
+    return found
+
+
 def run_unit(name, tier, seed):
     red = hist.reduced_alphabet(name)
     full = lib.content_model(name).names
@@ -130,6 +202,8 @@ def run_unit(name, tier, seed):
     r = f1.multi(name, passes, judge, judge_concrete)
     for kind, detail in attribute_reads(name):
         r['cands'].append(dict(cls=name, kind=kind, witness=dict(attribute_read=detail.split(':')[0]), detail=detail))
+    for kind, detail in attribute_writes(name):
+        r['cands'].append(dict(cls=name, kind=kind, witness=dict(attribute_write=kind), detail=detail))
     return r
 
 
@@ -139,6 +213,11 @@ def replay(c):
             if k == c['kind'] and d.split(':')[0] == c['witness']['attribute_read']:
                 return True, d
         return False, 'attribute reads return the stored values'
+    if 'attribute_write' in c['witness']:
+        for k, d in attribute_writes(c['cls']):
+            if k == c['kind']:
+                return True, d
+        return False, 'overwriting an attribute behaves like the dictionary update'
     if c['kind'] == 'hang':
         return (True, 'exceeded 30 s again') if hist.hangs(c['cls'], c['witness']['ops']) else (False, 'finished within the limit')
     for k, d in judge_concrete(c['cls'], c['witness']['ops'], c['witness']):
@@ -151,9 +230,11 @@ def describe():
     return dict(
         rule='breadth-first exploration of reachable states (as C01) over ADD / forward ADD / REMOVE / xml_x = child / xml_x = value / xml_x = None, '
              'plus a second pass starting from valid words with repeated names; every history containing a shortcut is re-executed with the explicit '
-             'calls; non-trivial = histories with at least one shortcut',
+             'calls; per class also: attribute reads of falsy values, and overwriting a stored attribute by dot assignment (a refused value '
+             'must leave the attributes unchanged; an accepted one must equal the e.attributes[k] = v route in order and text); '
+             'non-trivial = histories with at least one shortcut',
         functions=['xmlelement/xmlelement.py:XMLElement.__setattr__', 'XMLElement.__getattr__', 'XMLElement._convert_attribute_to_child',
-                   'XMLElement.find_child', 'XMLElement.replace_child', 'XMLElement.add_child', 'XMLElement.remove'],
+                   'XMLElement._set_attributes', 'XMLElement.find_child', 'XMLElement.replace_child', 'XMLElement.add_child', 'XMLElement.remove'],
         bounds=dict(exploration='depth <= 8, budget 2000+3000 quick / 25000+20000 thorough per class', outside='attribute shortcuts vs constructor keywords are compared in C04'),
         assumptions=['the explicit counterpart of e.xml_x = v is find_child + replace_child / add_child / remove / value_ as documented',
                      'e.xml_x is compared with find_child (insertion order), not with serialisation order, which the statement leaves open'],
